@@ -464,6 +464,13 @@ func reusedObjectLoop(r *vf.Run, rid string, rng *rand.Rand, ds *gen.Dataset, ma
 		for k := 0; k < 12; k++ {
 			l := gen.Leaf(rng, ds, cols)
 			leaf.Column, leaf.Value = l.Col, l.Val
+			if groupMode && len(q.GroupBy) == 1 && k%2 == 1 {
+				// the caller loops over the columns with ONE group-by slice: the element is overwritten in place
+				if ngb := gen.GroupBy(rng, ds, 1, 2000); len(ngb) == 1 {
+					q.GroupBy[0] = ngb[0]
+					gb = []string{ngb[0]}
+				}
+			}
 			want := oracle.Eval(ds.Rows, ds.Cols, oracle.Or(oracle.Not(l), oracle.And(l, other)), gb)
 			res, err := cfg.idx.Execute(q)
 			r.Eval(1)
@@ -477,7 +484,8 @@ func reusedObjectLoop(r *vf.Run, rid string, rng *rand.Rand, ds *gen.Dataset, ma
 			}
 			if diff != "" {
 				r.Violation(rid, "answer", map[string]any{"config": cfg.name, "difference": diff, "execution": k + 1, "leaf_now": l.String(), "other_operand": other.String(),
-					"explanation": "one query object; its leaf's Column/Value fields are set to a new pair before every execution", "specs": specStrings(ds)})
+					"group_by_now": fmt.Sprintf("%q", gb),
+					"explanation":  "one query object; its leaf's Column/Value fields (and, in every other execution, the element of its group-by slice) are set anew before every execution", "specs": specStrings(ds)})
 				return
 			}
 		}
